@@ -16,6 +16,7 @@ package l4tee
 
 import (
 	"encoding/json"
+	"errors"
 	"io"
 	"net"
 
@@ -159,6 +160,16 @@ func (nc nextConn) Read(p []byte) (n int, err error) {
 		_ = nc.pipe.Close()
 	}
 	return
+}
+
+// CloseWrite shuts down the writing side of the teed connection if it
+// supports that, so that the next handler (e.g. the proxy) can half-close
+// the connection towards the client.
+func (nc nextConn) CloseWrite() error {
+	if cw, ok := nc.Conn.(interface{ CloseWrite() error }); ok {
+		return cw.CloseWrite()
+	}
+	return errors.New("underlying connection does not support CloseWrite")
 }
 
 // Interface guards
